@@ -66,20 +66,38 @@ func c19r1(c *Ctx) {
 			if ok && be.Op == token.SUB {
 				hObj = f.ObjOf(be.X)
 			}
-			// the loop variable starts at the method's height parameter and only decreases
+			// the height variable is the method's height parameter, or a copy of it, and is otherwise only decreased;
+			// the pruned height is that variable minus a positive constant
 			okLoop := false
 			var param = top.Info().Defs[top.Type.Params.List[0].Names[0]]
-			ir.Walk(top.Body, false, func(x ast.Node) {
-				fs, isFor := x.(*ast.ForStmt)
-				if !isFor || fs.Init == nil || fs.Post == nil || !containsNode(fs.Body, call.Expr) {
-					return
-				}
-				as, ok1 := fs.Init.(*ast.AssignStmt)
-				inc, ok2 := fs.Post.(*ast.IncDecStmt)
-				if ok1 && ok2 && len(as.Lhs) == 1 && f.ObjOf(as.Lhs[0]) == hObj && f.ObjOf(as.Rhs[0]) == param && inc.Tok == token.DEC && f.ObjOf(inc.X) == hObj && ok && be.Op == token.SUB {
+			if ok && be.Op == token.SUB && hObj != nil {
+				if k, isConst := f.ConstInt(be.Y); isConst && k >= 1 {
 					okLoop = true
+					seeded := c.P.OrigObj(hObj) == param
+					for _, w := range wholeDefs(f, hObj) {
+						switch {
+						case w.Tok == token.DEC:
+						case w.Tok == token.SUB_ASSIGN:
+						case (w.Tok == token.DEFINE || w.Tok == token.ASSIGN) && w.RHS != nil && c.P.OrigObj(f.ObjOf(w.RHS)) == param && param != nil:
+							seeded = true
+						case w.Tok == token.ASSIGN && w.RHS != nil && isSelfMinus(f, w.RHS, hObj):
+						default:
+							okLoop = false
+						}
+					}
+					if !seeded {
+						okLoop = false
+					}
+					// the parameter itself must not grow before it seeds the variable
+					if c.P.OrigObj(hObj) != param {
+						for _, w := range wholeDefs(top, param) {
+							if w.Tok != token.DEC && w.Tok != token.SUB_ASSIGN {
+								okLoop = false
+							}
+						}
+					}
 				}
-			})
+			}
 			if !okLoop {
 				ob.Bad(nil, "the pruned heights are not h-1 for h counting down from the method's height argument: blocks at or above the requested height (or off the best chain) can be pruned")
 				continue
@@ -89,6 +107,12 @@ func c19r1(c *Ctx) {
 			ob.Check(f.OnlyAfterSuccess(bi, pn), nil, "Store.PruneBlock is reachable when the best-chain index lookup failed")
 		}
 	}
+}
+
+// isSelfMinus: e is `obj - x`.
+func isSelfMinus(f *ir.Func, e ast.Expr, obj types.Object) bool {
+	be, ok := ast.Unparen(e).(*ast.BinaryExpr)
+	return ok && be.Op == token.SUB && f.ObjOf(be.X) == obj
 }
 
 func c19r2(c *Ctx) {
